@@ -21,6 +21,7 @@ func c16StringProducers(s string) []c16Producer {
 		{"array-element", "[" + q + "][0]", "", ""},
 		{"function-return", "mkv()", Fun("mkv", "", " "+Ret(q)+" ") + "\n", ""},
 		{"parameter", "idf(" + q + ")", "", ""},
+		{"function-with-statements", "mkw()", Fun("mkw", "", " "+Var("t", "0")+" t = t + 1; idf(t); [t]; "+Ret(q)+" ") + "\n", ""},
 		{"input", BI("input"), "", s + "\n"},
 		{"property-assignment", "pa.j", Var("pa", "{}") + "\npa.j = " + q + ";\n", ""},
 		{"values-listing", BI("values", "{k: "+q+"}") + "[0]", "", ""},
@@ -56,6 +57,7 @@ func c16NumberProducers(n int) []c16Producer {
 		{"min-array", BI("min", "["+N+", "+N+" + 5]"), "", ""},
 		{"pow", BI("pow", N, "1"), "", ""},
 		{"function-return", "mkv()", Fun("mkv", "", " "+Ret(N)+" ") + "\n", ""},
+		{"function-with-statements", "mkw()", Fun("mkw", "", " "+Var("t", "0")+" t = t + 1; idf(t); [t]; "+Ret(N)+" ") + "\n", ""},
 		{"parameter", "idf(" + N + ")", "", ""},
 		{"array-element", "[" + N + "][0]", "", ""},
 		{"object-property", "({k: " + N + "}).k", "", ""},
